@@ -18,6 +18,7 @@ import (
 	"github.com/trustbloc/sidetree-core-go/pkg/canonicalizer"
 
 	"github.com/trustbloc/sidetree-core-go/pkg/document"
+	"github.com/trustbloc/sidetree-core-go/pkg/hashing"
 	"github.com/trustbloc/sidetree-core-go/pkg/mocks"
 	"github.com/trustbloc/sidetree-core-go/pkg/patch"
 	"github.com/trustbloc/sidetree-core-go/pkg/processor"
@@ -48,6 +49,8 @@ type aOp struct {
 }
 
 type aWorld struct {
+	lateVersion *uint64
+
 	k    *simkit.Kernel
 	prop string
 	hash uint
@@ -633,6 +636,10 @@ func (w *aWorld) anchor(req []byte, m *refmodel.Op, legit bool, kind string) *aO
 		TransactionTime: m.Time, TransactionNumber: m.Number, ProtocolVersion: v.P.GenesisTime,
 	}
 
+	if w.lateVersion != nil {
+		a.ProtocolVersion = *w.lateVersion // a late-arriving transaction keeps the version of its own anchoring time
+	}
+
 	if m.Published {
 		a.CanonicalReference = fmt.Sprintf("cref%d", m.ID)
 		a.EquivalentReferences = []string{fmt.Sprintf("eref%d", m.ID)}
@@ -969,6 +976,12 @@ func (w *aWorld) anchorHonest(st *refmodel.State, party string) {
 	req, m := w.build(p)
 	w.stampNoAdvance(m)
 
+	// now and then the request is exactly as large as the protocol allows (the client sent it with trailing whitespace)
+	if max := int(w.version().P.MaxOperationSize); len(req) < max && T.Draw(20, "honest.maxsize") == 0 {
+		req = append(req, []byte(strings.Repeat(" ", max-len(req)))...)
+		w.k.Count("probe:request-of-exactly-maximum-size")
+	}
+
 	if !m.InWindow() {
 		w.k.Count("probe:out-of-window-" + string(typ))
 	}
@@ -1214,6 +1227,13 @@ func (w *aWorld) anchorUnauthorised(st *refmodel.State) {
 		target = pool[T.Draw(len(pool), "unauth.key")]
 	}
 
+	// C01 only: a transaction that was anchored BEFORE an already-processed genuine operation reaches the node late
+	// (nodes may learn of anchored transactions out of order) and carries a copy of that operation with an altered
+	// payload under the genuine header and signature
+	if w.prop == "C01" && T.Draw(6, "unauth.late") == 0 && w.anchorLateTamperedTwin() {
+		return
+	}
+
 	mallory := w.newKey("")
 	t := w.advance()
 
@@ -1282,6 +1302,93 @@ func (w *aWorld) anchorUnauthorised(st *refmodel.State) {
 	w.nontrivial = true
 	w.k.Count("probe:" + p.kind)
 	w.anchor(req, m, false, p.kind)
+}
+
+// anchorLateTamperedTwin: see anchorUnauthorised. Returns false when the history offers no suitable genuine operation.
+func (w *aWorld) anchorLateTamperedTwin() bool {
+	var g *aOp
+
+	for i := len(w.ops) - 1; i >= 0 && g == nil; i-- {
+		o := w.ops[i]
+		if o.Legit && o.M.Published && o.M.Authentic && o.M.Delta == refmodel.DeltaOK && (o.M.Type == refmodel.Update || o.M.Type == refmodel.Recover) &&
+			strings.Contains(o.Kind, "honest") && !strings.Contains(o.M.Label, "late") {
+			g = o
+		}
+	}
+
+	if g == nil {
+		return false
+	}
+
+	// coordinates just before the genuine operation: same time, a lower unused number - or one second earlier
+	used := map[[2]uint64]bool{}
+	for _, o := range w.ops {
+		used[[2]uint64{o.M.Time, o.M.Number}] = true
+	}
+
+	tt, tn, ok := g.M.Time, uint64(0), false
+
+	for n := g.M.Number; n > 0 && !ok; n-- {
+		if !used[[2]uint64{tt, n - 1}] {
+			tn, ok = n-1, true
+		}
+	}
+
+	if !ok {
+		if tt == 0 {
+			return false
+		}
+
+		tt--
+		tn = 500 + uint64(w.k.T.Draw(400, "late.number"))
+
+		for used[[2]uint64{tt, tn}] {
+			tn++
+		}
+	}
+
+	// the attacker's delta, and the genuine signed data with its delta hash pointed at it
+	mallory := w.newKey("")
+	pd := w.genPatches(false, false)
+	patches, _ := workload.ToPatches(pd)
+	delta := &model.DeltaModel{UpdateCommitment: mallory.Commitment(w.hash), Patches: patches}
+
+	dh, err := hashing.CalculateModelMultihash(delta, w.hash)
+	if err != nil {
+		return false
+	}
+
+	var rm map[string]interface{}
+	if json.Unmarshal(g.A.OperationRequest, &rm) != nil {
+		return false
+	}
+
+	sd, _ := rm["signedData"].(string)
+	rm["signedData"] = workload.TamperPayload(sd, func(mm map[string]interface{}) { mm["deltaHash"] = dh })
+
+	db, _ := canonicalizer.MarshalCanonical(delta)
+
+	var dm interface{}
+	_ = json.Unmarshal(db, &dm)
+	rm["delta"] = dm
+
+	req, err := canonicalizer.MarshalCanonical(rm)
+	if err != nil {
+		return false
+	}
+
+	m := &refmodel.Op{Type: g.M.Type, Authentic: false, SuffixOK: true, Parses: true, Delta: refmodel.DeltaOK, Patches: pd, From: g.M.From, Until: g.M.Until,
+		RevealCommit: g.M.RevealCommit, NextUpdate: mallory.Commitment(w.hash), NextRecovery: g.M.NextRecovery, Origin: g.M.Origin,
+		Label: fmt.Sprintf("%s/late-tampered-twin-of-#%d", g.M.Type, g.M.ID), Time: tt, Number: tn, Published: true, MaxDelta: g.M.MaxDelta}
+
+	pv := g.A.ProtocolVersion
+	w.lateVersion = &pv
+	w.nontrivial = true
+	w.k.Count("probe:late-arriving-tampered-twin")
+	w.anchor(req, m, false, "late-tampered-twin")
+	w.lateVersion = nil
+
+	return true
 }
 
 // ---- unpublished operations (C02: published always wins)
